@@ -85,6 +85,7 @@ def focus_cell(fab, it, kind, k):
     if kind == 'Vector-ptr': return f.vector([f.ptr(P(it, 'f0', k)), f.fixnum(7)])
     if kind == 'Vector-pair': return f.vector([f.pair(P(it, 'f0', k), P(it, 'f1', k))])
     if kind == 'Vector-all': return f.vector([f.ptr(i) for i in range(1, k)])
+    if kind == 'Vector-half': return f.vector([f.ptr(i) for i in range(1, k // 2 + 2)])      # half of the cells live, the rest garbage
     if kind == 'Continuation-stack':
         return f.vcont([f.vc('Undefined'), f.ptr(P(it, 'f0', k)), f.vc('InstructionPointer', P(it, 'f1', k), 0)], 2, USIZE_MAX, (USIZE_MAX, 0), 0)
     if kind == 'Continuation-ip':
@@ -95,15 +96,17 @@ def focus_cell(fab, it, kind, k):
     raise KeyError(kind)
 
 
-def build_state(fab, it, focus, root, k, cap=CAP):
+def build_state(fab, it, focus, root, k, cap=CAP, chunk=None):
     """k allocated cells: [focus, Pair, Pair|leaf.., Symbol 'a', String, Number]; returns (vm, root_refs, info)"""
     f = fab
     cells = [focus_cell(f, it, focus, k), f.pair(P(it, 'q0', k), P(it, 'q1', k))]
     leaves = [f.symbol('a'), f.string('s'), f.fixnum(42), f.vc('Nil'), f.symbol('b'), f.vc('Char', 0x3bb)]
     i = 0
     while len(cells) < k:
-        cells.append(leaves[i % len(leaves)]); i += 1
-    heap = f.heap(cells, cap)
+        leaf = leaves[i % len(leaves)]
+        if i >= len(leaves) and f.kind(leaf) == 'Symbol': leaf = f.symbol('s%d' % i)      # symbols are interned: every symbol cell has its own name
+        cells.append(leaf); i += 1
+    heap = f.heap(cells, cap, chunk=chunk)
     acc = f.vc('Undefined'); ep = USIZE_MAX; ip0 = USIZE_MAX
     stack_cells = [f.vc('Undefined') for _ in range(4)]
     sp = 0
@@ -160,7 +163,7 @@ def snapshot(fab, it, vm):
             'roots': root_refs(f, it, vm)}
 
 
-def judge(fab, it, pre, vm, k, cap):
+def judge(fab, it, pre, vm, k, cap, chunk=None):
     """the oracle: compares the post-state `vm` with the pre-state snapshot.  -> None | (what, key).
     Used on symbolic paths (values may be z3 terms) and on native replay dumps (all concrete)."""
     f = fab
@@ -207,8 +210,7 @@ def judge(fab, it, pre, vm, k, cap):
     live = len(reach) if ran else k
     want_cap = cap
     if ran and live / cap > 0.75:
-        import math
-        want_cap = int(math.ceil(1 * 1.5)) * cap
+        want_cap = cap + (chunk or cap)          # Heap::grow adds one chunk
     if ncap != want_cap: return ('capacity %d after the collection, expected %d (live %d)' % (ncap, want_cap, live), 'growth-policy')
     if len(fl) != ncap - live:
         return ('free list has %d entries, expected %d' % (len(fl), ncap - live), 'free-list')
@@ -223,19 +225,19 @@ def judge(fab, it, pre, vm, k, cap):
     return None
 
 
-def make_harness(prog, focus, root, k, cap=CAP):
+def make_harness(prog, focus, root, k, cap=CAP, chunk=None):
     fab = Fab(prog)
     RUN_GC = prog.resolve_crate('Vm::run_gc')
 
     def harness(it):
         f = fab
-        vm = build_state(f, it, focus, root, k, cap)
-        it.ghost['state'] = (focus, root, k, cap)
+        vm = build_state(f, it, focus, root, k, cap, chunk)
+        it.ghost['state'] = (focus, root, k, cap, chunk)
         pre = snapshot(f, it, vm)
         vmb = Cell(vm)
         it.call(RUN_GC, [Ref(vmb)])
-        bad = judge(f, it, pre, vmb.v, k, cap)
-        if bad: return violation(it, bad[0], bad[1], focus, root, k, cap)
+        bad = judge(f, it, pre, vmb.v, k, cap, chunk)
+        if bad: return violation(it, bad[0], bad[1], focus, root, k, cap, chunk)
         m = it.witness()
         it.ghost['sample'] = {'focus': focus, 'root': root, 'reachable': it.ghost.get('reach'), 'pointers': describe(m)} if m is not None else None
         return None
@@ -252,7 +254,7 @@ def native_verdict(prog, replay, req):
     it = Interp(prog)
     CONCRETE = dict(req['vars'])
     try:
-        vm = build_state(fab, it, req['focus'], req['root'], req['k'], req['cap'])
+        vm = build_state(fab, it, req['focus'], req['root'], req['k'], req['cap'], req.get('chunk'))
     finally:
         CONCRETE = None
     pre = snapshot(fab, it, vm)
@@ -263,7 +265,7 @@ def native_verdict(prog, replay, req):
     if not out.startswith('OK '):
         return None, 'native replay failed: ' + out
     post = vmfab.vm_of(fab, unhexs(out.split()[1]))
-    bad = judge(fab, it, pre, post, req['k'], req['cap'])
+    bad = judge(fab, it, pre, post, req['k'], req['cap'], req.get('chunk'))
     if bad: return True, '%s [pre-state %s]' % (bad[0], text)
     return False, 'native run_gc satisfies the oracle on %s' % text
 
@@ -276,16 +278,16 @@ def describe(m):
     return out
 
 
-def violation(it, what, key, focus, root, k, cap):
+def violation(it, what, key, focus, root, k, cap, chunk=None):
     m = it.witness()
-    return {'what': what, 'key': key, 'request': {'cmd': 'gcstep', 'focus': focus, 'root': root, 'k': k, 'cap': cap, 'vars': describe(m)}}
+    return {'what': what, 'key': key, 'request': {'cmd': 'gcstep', 'focus': focus, 'root': root, 'k': k, 'cap': cap, 'chunk': chunk, 'vars': describe(m)}}
 
 
 def on_panic(it, e):
-    st = it.ghost.get('state', (None, None, 0, 0))
+    st = it.ghost.get('state', (None, None, 0, 0, None))
     m = it.witness()
     return {'what': 'panic during collection: %s' % e, 'key': 'panic:' + e.kind,
-            'request': {'cmd': 'gcstep', 'focus': st[0], 'root': st[1], 'k': st[2], 'cap': st[3], 'vars': describe(m)}}
+            'request': {'cmd': 'gcstep', 'focus': st[0], 'root': st[1], 'k': st[2], 'cap': st[3], 'chunk': st[4] if len(st) > 4 else None, 'vars': describe(m)}}
 
 
 FUNCTIONS = ['vm::run::Vm::run_gc', 'vm::heap::Heap::mark', 'vm::heap::Heap::mark_vcell', 'vm::heap::Heap::mark_continuation',
@@ -303,11 +305,16 @@ def plans(tier):
         for rk in ROOT_KINDS: out.append(('Pair', rk, 6, 8))
         out.append(('Pair', 'acc-ptr', 5, 8))       # below the 75 % threshold: the collection must not run
         out.append(('Vector-all', 'acc-ptr', 7, 8))    # everything live through one vector: > 75 % after the sweep, growth policy
+        # two chunks of 8: the collection runs (12/16 allocated), the survivors stay below 75 % of the CAPACITY but above 75 % of one chunk: no growth
+        out.append(('Leaf', 'acc-ptr', 12, 16, 8)); out.append(('Leaf', 'global-slot', 12, 16, 8)); out.append(('Vector-all', 'acc-ptr', 13, 16, 8)); out.append(('Vector-half', 'acc-ptr', 12, 16, 8)); out.append(('Vector-half', 'global-slot', 12, 16, 8))
     else:
         for fk in FOCUS_KINDS:
             for rk in ROOT_KINDS: out.append((fk, rk, 6, 8))
         for fk in FOCUS_KINDS: out.append((fk, 'acc-ptr', 10, 12))
         out.append(('Pair', 'acc-ptr', 5, 8)); out.append(('Vector-all', 'acc-ptr', 7, 8)); out.append(('Vector-all', 'stack-ptr', 8, 8))
+        for fk in ('Leaf', 'Ptr', 'Vector-all'):
+            for rk in ('acc-ptr', 'global-slot', 'ep'): out.append((fk, rk, 12, 16, 8))
+        out.append(('Vector-all', 'acc-ptr', 13, 16, 8))
     return out
 
 
@@ -321,9 +328,10 @@ def run_all(chk, prog, tier, replays, keys):
     from mirsym import models_vm
     models_vm.install(prog)
     dev, rel = replays
-    for focus, root, k, cap in plans(tier):
-        name = 'gc-step/focus=%s/root=%s/alloc=%d/cap=%d' % (focus, root, k, cap)
-        h = make_harness(prog, focus, root, k, cap)
+    for pl in plans(tier):
+        focus, root, k, cap = pl[:4]; chunk = pl[4] if len(pl) > 4 else None
+        name = 'gc-step/focus=%s/root=%s/alloc=%d/cap=%d%s' % (focus, root, k, cap, '/chunk=%d' % chunk if chunk else '')
+        h = make_harness(prog, focus, root, k, cap, chunk)
         res = explore(prog, h, opts={'on_panic': on_panic, 'paranoid': (focus, root) == ('Pair', 'acc-ptr') and k == 5}, quiet=True)
         print('  harness %-70s %s' % (name, res.summary()), flush=True)
         chk.add_result(name, res, FUNCTIONS, {'heap_capacity': cap, 'allocated_cells': k, 'focus_cell': focus, 'root': root,
